@@ -185,10 +185,45 @@ def predicates_and_roles(rep):
     rep.need("R2", n_sites, 2, "GraphMatcher construction sites in the strategies")
 
 
+def _greedy_reservation(fn) -> bool:
+    """`for x in items: free = next((c for c in cands(x) if c not in taken), None); if free is None: return False; taken.add(free)` with no un-reserving
+    and no recursion: a first-free reservation.  It can answer "impossible" although a complete assignment exists (an earlier item takes the only
+    candidate a later one could use)."""
+    taken = set()
+    for c in ast.walk(fn):
+        if isinstance(c, ast.Call) and isinstance(c.func, ast.Attribute) and c.func.attr == "add" and isinstance(c.func.value, ast.Name):
+            taken.add(c.func.value.id)
+    if not taken:
+        return False
+    undo = any(isinstance(c, ast.Call) and isinstance(c.func, ast.Attribute) and c.func.attr in ("remove", "discard", "pop") and isinstance(c.func.value, ast.Name)
+               and c.func.value.id in taken for c in ast.walk(fn))
+    recursive = any(isinstance(c, ast.Call) and call_name(c) == fn.name for c in ast.walk(fn))
+    first_free = any(isinstance(c, ast.Call) and call_name(c) == "next" and c.args and isinstance(c.args[0], ast.GeneratorExp)
+                     and any(isinstance(t, ast.Compare) and isinstance(t.ops[0], ast.NotIn) and norm(t.comparators[0]) in taken for g in c.args[0].generators for t in g.ifs)
+                     for c in ast.walk(fn))
+    gives_up = any(isinstance(r, ast.Return) and is_const(r.value, False) for r in ast.walk(fn))
+    return first_free and gives_up and not undo and not recursive
+
+
 def component_aware(rep):
     fi = rep.f(SM, ENG + STRATS[1])
     defs = local_defs(fi.node)
     pm = parent_map(fi.node)
+    # an empty answer before the back-tracking needs a reason that holds for every assignment of pattern components to host components: a helper that
+    # reserves host components greedily (first free one) gives up although the back-tracking would have found an assignment
+    for r in [r for r in walk_local(fi.node) if isinstance(r, ast.Return) and isinstance(r.value, ast.List) and not r.value.elts]:
+        for t, sn in guards_of(pm, r, fi.node):
+            for c in [c for c in ast.walk(t) if isinstance(c, ast.Call) and isinstance(c.func, ast.Attribute) and isinstance(c.func.value, ast.Name)
+                      and c.func.value.id in ("SubgraphSearchEngine", "self", "cls")]:
+                helper = rep.repo.maybe_func(SM, ENG + c.func.attr)
+                if helper is None or c.func.attr in STRATS or c.func.attr == "_quick_pre_filter":
+                    continue
+                if _greedy_reservation(helper.node):
+                    rep.ob("O6.4", "SHAPE", fi, False, c, f"the component-aware strategy answers [] only when no assignment of pattern components to distinct host components "
+                           f"exists (`{c.func.attr}` reserves the first free host component per pattern component and never revises: it can say 'impossible' when an "
+                           "assignment exists)", node=r)
+                else:
+                    rep.ob("O6.4", "SHAPE", fi, None, c, f"the empty answer depends on `{c.func.attr}`, a test this rule does not read", node=r)
     # fallback to the exhaustive strategy exactly when #components(host) < #components(pattern)
     fb = None
     for st in fi.node.body:
